@@ -256,7 +256,10 @@ func compactNumber(dst, src []byte, cursor int64) ([]byte, int64, error) {
 	}
 	num := src[start:cursor]
 	if _, err := strconv.ParseFloat(*(*string)(unsafe.Pointer(&num)), 64); err != nil {
-		return nil, 0, err
+		// a number literal need not fit a float64 (1e400 is valid JSON)
+		if ne, ok := err.(*strconv.NumError); !ok || ne.Err != strconv.ErrRange {
+			return nil, 0, err
+		}
 	}
 	dst = append(dst, num...)
 	return dst, cursor, nil
